@@ -17,6 +17,14 @@ type enumBuilder struct {
 	commentSet
 }
 
+// isExplicitUnspecified reports whether option, declared first in an enum, is
+// the explicit zero value: `UNSPECIFIED`, with or without the enum's prefix.
+// Any other name, including ones which merely end in UNSPECIFIED, is a normal
+// option numbered from 1.
+func isExplicitUnspecified(prefix string, option *schema_j5pb.Enum_Option) bool {
+	return option.Number == 0 && strings.TrimPrefix(option.Name, prefix) == "UNSPECIFIED"
+}
+
 func (e *enumBuilder) addValue(number int32, schema *schema_j5pb.Enum_Option) {
 	name := schema.Name
 	if !strings.HasPrefix(name, e.prefix) {
